@@ -1281,8 +1281,7 @@ Tokenizer_parse_comment(Tokenizer *self)
     while (1) {
         this = Tokenizer_read(self, 0);
         if (!this) {
-            comment = Tokenizer_pop(self);
-            Py_XDECREF(comment);
+            Tokenizer_delete_top_of_stack(self);
             self->unterminated_comment = start;
             self->head = reset;
             return Tokenizer_emit_text(self, "<!--");
@@ -1447,7 +1446,6 @@ Tokenizer_handle_tag_text(Tokenizer *self, Py_UCS4 text)
 static int
 Tokenizer_handle_tag_data(Tokenizer *self, TagData *data, Py_UCS4 chunk)
 {
-    PyObject *trash;
     int first_time, escaped;
 
     if (data->context & TAG_NAME) {
@@ -1469,8 +1467,7 @@ Tokenizer_handle_tag_data(Tokenizer *self, TagData *data, Py_UCS4 chunk)
         if (data->context & TAG_QUOTED) {
             data->context = TAG_ATTR_VALUE;
             Tokenizer_memoize_bad_route(self);
-            trash = Tokenizer_pop(self);
-            Py_XDECREF(trash);
+            Tokenizer_delete_top_of_stack(self);
             self->head = data->reset - 1; // Will be auto-incremented
         } else {
             Tokenizer_fail_route(self);
@@ -1821,7 +1818,7 @@ static PyObject *
 Tokenizer_really_parse_tag(Tokenizer *self)
 {
     TagData *data = TagData_new(&self->text);
-    PyObject *token, *text, *trash;
+    PyObject *token, *text;
     Py_UCS4 this, next;
     int can_exit;
 
@@ -1851,13 +1848,11 @@ Tokenizer_really_parse_tag(Tokenizer *self)
                     // Unclosed attribute quote: reset, don't die
                     data->context = TAG_ATTR_VALUE;
                     Tokenizer_memoize_bad_route(self);
-                    trash = Tokenizer_pop(self);
-                    Py_XDECREF(trash);
+                    Tokenizer_delete_top_of_stack(self);
                     self->head = data->reset;
                     continue;
                 }
-                trash = Tokenizer_pop(self);
-                Py_XDECREF(trash);
+                Tokenizer_delete_top_of_stack(self);
             }
             TagData_dealloc(data);
             return Tokenizer_fail_route(self);
@@ -2492,7 +2487,7 @@ static PyObject *
 Tokenizer_handle_table_style(Tokenizer *self, Py_UCS4 end_token)
 {
     TagData *data = TagData_new(&self->text);
-    PyObject *padding, *trash;
+    PyObject *padding;
     Py_UCS4 this;
     int can_exit;
 
@@ -2526,13 +2521,11 @@ Tokenizer_handle_table_style(Tokenizer *self, Py_UCS4 end_token)
                     // Unclosed attribute quote: reset, don't die
                     data->context = TAG_ATTR_VALUE;
                     Tokenizer_memoize_bad_route(self);
-                    trash = Tokenizer_pop(self);
-                    Py_XDECREF(trash);
+                    Tokenizer_delete_top_of_stack(self);
                     self->head = data->reset;
                     continue;
                 }
-                trash = Tokenizer_pop(self);
-                Py_XDECREF(trash);
+                Tokenizer_delete_top_of_stack(self);
             }
             TagData_dealloc(data);
             return Tokenizer_fail_route(self);
@@ -2553,7 +2546,7 @@ static int
 Tokenizer_parse_table(Tokenizer *self)
 {
     Py_ssize_t reset = self->head;
-    PyObject *style, *padding, *trash;
+    PyObject *style, *padding;
     PyObject *table = NULL;
     StackIdent restore_point;
     self->head += 2;
@@ -2793,7 +2786,7 @@ Tokenizer_handle_table_end(Tokenizer *self)
 static PyObject *
 Tokenizer_handle_end(Tokenizer *self, uint64_t context)
 {
-    PyObject *token, *text, *trash;
+    PyObject *token, *text;
     int single;
 
     if (context & AGG_FAIL) {
@@ -2813,13 +2806,11 @@ Tokenizer_handle_end(Tokenizer *self, uint64_t context)
             }
         } else {
             if (context & LC_TABLE_CELL_OPEN) {
-                trash = Tokenizer_pop(self);
-                Py_XDECREF(trash);
+                Tokenizer_delete_top_of_stack(self);
                 context = self->topstack->context;
             }
             if (context & AGG_DOUBLE) {
-                trash = Tokenizer_pop(self);
-                Py_XDECREF(trash);
+                Tokenizer_delete_top_of_stack(self);
             }
         }
         return Tokenizer_fail_route(self);
@@ -2959,8 +2950,7 @@ Tokenizer_parse(Tokenizer *self, uint64_t context, int push)
         if (this_context & AGG_UNSAFE) {
             if (Tokenizer_verify_safe(self, this_context, this) < 0) {
                 if (this_context & AGG_DOUBLE) {
-                    temp = Tokenizer_pop(self);
-                    Py_XDECREF(temp);
+                    Tokenizer_delete_top_of_stack(self);
                 }
                 return Tokenizer_fail_route(self);
             }
